@@ -18,6 +18,7 @@ For each lint `L` (model `L.lint`, the transcription of the Rust visitor; specif
                the diagnostic.
 -/
 import Selene.Lints.ExamplesA
+import Selene.Lints.EscapeProof
 namespace Selene.Props.C04A
 open Selene.Lua Selene.Lints
 
@@ -207,15 +208,16 @@ theorem bad_string_escape_fixed_256 :
       Doc.badStringEscape false (.expr (.str ⟨2, "\"\\256\""⟩ .double "\\256")) g = true := by
   decide
 
-/- Full statements (not proved: they need "the regular expression's matches start exactly at the
-   backslashes where a Lua lexer starts an escape", an induction over both scanners):
-     theorem bad_string_escape_sound (roblox) (b) (g) (h : g ∈ BadStringEscape.lint roblox b)
-       :
-       ∃ n ∈ nodesB b, Doc.badStringEscape roblox n g = true
-     theorem bad_string_escape_canon (roblox) (n) (x) (hx : x ∈ Canon.badStringEscape roblox n) (s) (hn : n ∈ nodesS s) (ctx) :
-       ∃ g ∈ BadStringEscape.lint roblox (ctx.plug s), x.matches g = true
-   Proved instead: the three documented examples are reported in every context; both statements are
-   evaluated on every generated string by the correspondence run. -/
+/-- **bad_string_escape is sound for every program** (proved in `Lints/EscapeProof.lean`: the
+regular-expression scanner of the lint and the Lua lexer of the specification find their escapes at
+the same backslashes — whatever either skips after an escape contains no backslash — and agree on what
+is wrong with each).  The converse (`…_canon`, every documented pattern is reported in every context)
+is proved for the three documented examples below and evaluated on every generated string by the
+correspondence run. -/
+theorem bad_string_escape_sound (roblox : Bool) (b : Block) (g : Diag) (h : g ∈ BadStringEscape.lint roblox b) :
+    ∃ n ∈ nodesB b, Doc.badStringEscape roblox n g = true :=
+  EscapeProof.bad_string_escape_sound roblox b g h
+
 theorem bad_string_escape_canon_partial (ctx : BCtx) :
     (∃ g ∈ BadStringEscape.lint false (ctx.plug (Ex.strAssign "\\m")), g.sub = some (1, 3) ∧ g.msg = BadStringEscape.msgInvalid) ∧
     (∃ g ∈ BadStringEscape.lint false (ctx.plug (Ex.strAssign "don\\'t")), g.sub = some (4, 6) ∧ g.msg = BadStringEscape.msgSingleInDouble) ∧
